@@ -21,55 +21,55 @@ open Gca
 
 /-! ### Round trips and refusal of wrong lengths -/
 
-theorem report_roundtrip (r : Report) (h : r.WF) : Report.decode (Report.encode r) = some r :=
+theorem c15h_report_roundtrip (r : Report) (h : r.WF) : Report.decode (Report.encode r) = some r :=
   Report.decode_encode r h
-theorem report_wrong_length (b : Bytes) (h : b.length ≠ 80) : Report.decode b = none :=
+theorem c15h_report_wrong_length (b : Bytes) (h : b.length ≠ 80) : Report.decode b = none :=
   Report.decode_none_of_length h
-theorem report_canonical (b : Bytes) (r : Report) (h : Report.decode b = some r) : Report.encode r = b :=
+theorem c15h_report_canonical (b : Bytes) (r : Report) (h : Report.decode b = some r) : Report.encode r = b :=
   Report.encode_decode h
 
-theorem auth_roundtrip (a : Auth) (h : a.WF) : Auth.decode (Auth.encode a) = some a :=
+theorem c15h_auth_roundtrip (a : Auth) (h : a.WF) : Auth.decode (Auth.encode a) = some a :=
   Auth.decode_encode a h
-theorem auth_wrong_length (b : Bytes) (h : b.length ≠ 148) : Auth.decode b = none :=
+theorem c15h_auth_wrong_length (b : Bytes) (h : b.length ≠ 148) : Auth.decode b = none :=
   Auth.decode_none_of_length h
 
 /-- Authorized servers (wire form inside sync replies and migration orders). -/
-theorem authServers_roundtrip (as : List AuthServer) (h : ∀ a ∈ as, a.WF) :
+theorem c15h_authServers_roundtrip (as : List AuthServer) (h : ∀ a ∈ as, a.WF) :
     AuthServer.decodeList (AuthServer.encodeList as).length (AuthServer.encodeList as) = some as :=
   AuthServer.decodeList_encodeList as h _ (AuthServer.encodeList_length_ge as h)
 
 /-- Weekly statistics stream: any number of concatenated records decodes back. -/
-theorem stats_stream_roundtrip (ws : List Week) (h : ∀ w ∈ ws, w.WF) :
+theorem c15h_stats_stream_roundtrip (ws : List Week) (h : ∀ w ∈ ws, w.WF) :
     decodeStream ws.length (encodeStream ws) = some ws :=
   decodeStream_encodeStream ws h ws.length (Nat.le_refl _)
 
 /-- Client server map: every list of well-formed entries is encodable and decodes back. -/
-theorem serverMap_roundtrip (es : List CEntry) (h : ∀ e ∈ es, CServer.WF e) :
+theorem c15h_serverMap_roundtrip (es : List CEntry) (h : ∀ e ∈ es, CServer.WF e) :
     ∃ b, CServer.encodeMap es = some b ∧ CServer.decodeMap b.length b = some es := by
   obtain ⟨b, hb, hl, hd⟩ := CServer.encodeMap_some es h
   exact ⟨b, hb, hd b.length hl⟩
 
 /-- ... and a location longer than 65535 bytes is refused. -/
-theorem serverMap_refuses_long (e : CEntry) (es : List CEntry) (h : e.2.loc.length > 0xFFFF) :
+theorem c15h_serverMap_refuses_long (e : CEntry) (es : List CEntry) (h : e.2.loc.length > 0xFFFF) :
     CServer.encodeMap (e :: es) = none := CServer.encodeMap_none_of_long e es h
 
 /-! ### Signing bytes determine the signed content -/
 
-theorem report_signing_injective (r s : Report) (hr : r.WF) (hs : s.WF)
+theorem c15h_report_signing_injective (r s : Report) (hr : r.WF) (hs : s.WF)
     (h : Report.signingBytes r = Report.signingBytes s) : r.id = s.id ∧ r.ts = s.ts ∧ r.p = s.p :=
   Report.signingBytes_inj hr hs h
 
-theorem auth_signing_injective (a b : Auth) (ha : a.WF) (hb : b.WF)
+theorem c15h_auth_signing_injective (a b : Auth) (ha : a.WF) (hb : b.WF)
     (h : Auth.signingBytes a = Auth.signingBytes b) : { a with sig := [] } = { b with sig := [] } :=
   Auth.signingBytes_inj ha hb h
 
-theorem registration_signing_injective (k k' : Bytes)
+theorem c15h_registration_signing_injective (k k' : Bytes)
     (h : Registration.signingBytes k = Registration.signingBytes k') : k = k' :=
   List.append_cancel_left h
 
 /-- Authorized server: with a location that fits the one-byte length field the
 signing bytes determine every signed field. -/
-theorem authServer_signing_injective (a b : AuthServer) (ha : a.WF) (hb : b.WF)
+theorem c15h_authServer_signing_injective (a b : AuthServer) (ha : a.WF) (hb : b.WF)
     (h : AuthServer.signingBytes a = AuthServer.signingBytes b) : { a with sig := [] } = { b with sig := [] } := by
   have hb' : AuthServer.body a = AuthServer.body b := List.append_cancel_left h
   have h1 : AuthServer.encode { a with sig := b.sig } = AuthServer.encode b := by
@@ -84,14 +84,14 @@ theorem authServer_signing_injective (a b : AuthServer) (ha : a.WF) (hb : b.WF)
   have h3 := congrArg Prod.fst (Option.some.inj h2)
   cases a; cases b; simp_all
 
-theorem cons_replicate_append {α} (x : α) (n : Nat) (t : List α) :
+theorem c15h_cons_replicate_append {α} (x : α) (n : Nat) (t : List α) :
     x :: (List.replicate n x ++ t) = List.replicate n x ++ x :: t := by
   induction n with
   | zero => rfl
   | succ n ih => simp only [List.replicate_succ, List.cons_append, ih]
 
 /-- Any location length that is a non-zero multiple of 256 gives a collision. -/
-theorem authServer_ambiguous_aux (n : Nat) (hn : n ≠ 0) (hm : n % 256 = 0) :
+theorem c15h_authServer_ambiguous_aux (n : Nat) (hn : n ≠ 0) (hm : n % 256 = 0) :
     ∃ a b : AuthServer, a ≠ b ∧ AuthServer.signingBytes a = AuthServer.signingBytes b := by
   refine ⟨⟨[], false, List.replicate n 0, 0, 0, 0, []⟩,
           ⟨List.replicate n 0, false, [], 0, 0, 0, []⟩, ?_, ?_⟩
@@ -104,16 +104,16 @@ theorem authServer_ambiguous_aux (n : Nat) (hn : n ≠ 0) (hm : n % 256 = 0) :
     congr 1
     show (0:UInt8) :: 0 :: (List.replicate n 0 ++ [0,0,0,0,0,0]) =
       List.replicate n 0 ++ [0,0,0,0,0,0,0,0]
-    rw [cons_replicate_append, cons_replicate_append]
+    rw [c15h_cons_replicate_append, c15h_cons_replicate_append]
 
 /-- Without the bound the encoding is ambiguous: two different servers (one with a
 256-byte location, whose length byte wraps to 0) share their signing bytes. This
 is why the server refuses such entries. -/
-theorem authServer_ambiguous_beyond_255 :
+theorem c15h_authServer_ambiguous_beyond_255 :
     ∃ a b : AuthServer, a ≠ b ∧ AuthServer.signingBytes a = AuthServer.signingBytes b := by
-  exact authServer_ambiguous_aux 256 (by decide) rfl
+  exact c15h_authServer_ambiguous_aux 256 (by decide) rfl
 
-theorem migration_signing_injective (m n : Migration) (hm : m.WF) (hn : n.WF)
+theorem c15h_migration_signing_injective (m n : Migration) (hm : m.WF) (hn : n.WF)
     (h : Migration.signingBytes m = Migration.signingBytes n) : { m with sig := [] } = { n with sig := [] } := by
   have hb : Migration.body m = Migration.body n := List.append_cancel_left h
   obtain ⟨m1, m2, m3, m4, _⟩ := hm
@@ -127,7 +127,7 @@ theorem migration_signing_injective (m n : Migration) (hm : m.WF) (hn : n.WF)
     AuthServer.decodeList_encodeList _ n4 _ (Nat.le_max_right _ _)] at e4
   cases m; cases n; simp_all
 
-theorem week_signing_injective (w v : Week) (hw : w.WF) (hv : v.WF)
+theorem c15h_week_signing_injective (w v : Week) (hw : w.WF) (hv : v.WF)
     (h : Week.signingBytes w = Week.signingBytes v) : w.devs = v.devs ∧ w.tso = v.tso := by
   have hb' : Week.body w = Week.body v := List.append_cancel_left h
   have h1 : Week.encode { w with sig := v.sig } = Week.encode v := by
@@ -145,7 +145,7 @@ theorem week_signing_injective (w v : Week) (hw : w.WF) (hv : v.WF)
 /-! ### Different message types never share signing bytes -/
 
 /-- Two byte strings with a common extension: one head is a prefix of the other. -/
-theorem append_eq_prefix {a b x y : Bytes} (h : a ++ x = b ++ y) :
+theorem c15h_append_eq_prefix {a b x y : Bytes} (h : a ++ x = b ++ y) :
     a.isPrefixOf b = true ∨ b.isPrefixOf a = true := by
   induction a generalizing b with
   | nil => simp
@@ -160,19 +160,19 @@ theorem append_eq_prefix {a b x y : Bytes} (h : a ++ x = b ++ y) :
 /-- For any two distinct message types (report, authorization, registration,
 authorized server, migration order, weekly statistics), whatever follows the
 prefixes, the signing bytes differ. -/
-theorem types_disjoint (i j : Fin Tie.allPrefixes.length) (hij : i ≠ j) (x y : Bytes) :
+theorem c15h_types_disjoint (i j : Fin Tie.allPrefixes.length) (hij : i ≠ j) (x y : Bytes) :
     ascii Tie.allPrefixes[i] ++ x ≠ ascii Tie.allPrefixes[j] ++ y := by
   intro h
   have h1 := Tie.prefixes_prefix_free i j hij
   have h2 := Tie.prefixes_prefix_free j i (Ne.symm hij)
   simp only [Tie.isPrefix] at h1 h2
-  rcases append_eq_prefix h with h3 | h3
+  rcases c15h_append_eq_prefix h with h3 | h3
   · rw [h1] at h3; exact Bool.noConfusion h3
   · rw [h2] at h3; exact Bool.noConfusion h3
 
 /-- Instance: a report can never be passed off as an authorization (and so on for every pair). -/
-theorem report_vs_auth (r : Report) (a : Auth) : Report.signingBytes r ≠ Auth.signingBytes a :=
-  types_disjoint ⟨0, by decide⟩ ⟨1, by decide⟩ (by decide) _ _
+theorem c15h_report_vs_auth (r : Report) (a : Auth) : Report.signingBytes r ≠ Auth.signingBytes a :=
+  c15h_types_disjoint ⟨0, by decide⟩ ⟨1, by decide⟩ (by decide) _ _
 
 /-- Non-vacuity: a concrete report round-trips and has the documented bytes. -/
 example : Report.encode ⟨1, 2, 3, zeros 64⟩ = [1,0,0,0, 2,0,0,0, 3,0,0,0,0,0,0,0] ++ zeros 64 := by decide
